@@ -929,6 +929,16 @@ def str_method(interp, s, name, args, kwargs):
                     interp.used_models.add("str.split(sep) of sep.join(parts) is parts when no part contains sep")
                     return list(parts)
         return split_model(interp, s, args, kwargs)
+    if name == "replace" and chars is not None and len(args) == 2 and isinstance(args[0], str) and len(args[0]) == 1 and isinstance(args[1], str):
+        # bounded string, one concrete character replaced by a concrete text: case split per position
+        out = []
+        for c in chars:
+            if isinstance(c, int):
+                hit = c == ord(args[0])
+            else:
+                hit = ctx.branch(c == ord(args[0]), f"char is {args[0]!r}")
+            out.extend([ord(x) for x in args[1]] if hit else [c])
+        return mk(BStr(out))
     if name == "replace":
         raise Unsupported("str.replace on symbolic string (replace_all)")
     if name == "format":
